@@ -179,6 +179,47 @@ fn cases(tier: Tier) -> Vec<Case> {
             }
         }
     }
+    // exempt contexts x environments created inside them: the exemption from errexit covers
+    // everything executed as part of the condition / non-final and-or operand / negated pipeline,
+    // including subshells, substitutions, pipeline elements and asynchronous lists started there
+    {
+        let p = || Cmd::P { label: 0, st: 0 };
+        let bx = |c: Cmd| Box::new(c);
+        let failing_then_probe = |last: i32| Cmd::Seq(vec![Cmd::S(1), p(), Cmd::S(last)]);
+        let mut inners: Vec<Cmd> = vec![];
+        for last in [0, 3] {
+            let b = failing_then_probe(last);
+            inners.push(Cmd::Subshell(bx(b.clone())));
+            inners.push(Cmd::Subst(bx(b.clone())));
+            inners.push(Cmd::Pipe(vec![b.clone(), Cmd::S(last)]));
+            inners.push(Cmd::Pipe(vec![Cmd::S(0), b.clone()]));
+            inners.push(Cmd::Subshell(bx(Cmd::Subshell(bx(b.clone())))));
+            inners.push(Cmd::Subshell(bx(Cmd::Seq(vec![Cmd::Group(bx(b.clone())), p()]))));
+            inners.push(Cmd::Seq(vec![Cmd::Async(bx(b.clone())), Cmd::WaitLast]));
+            inners.push(Cmd::Group(bx(b.clone())));
+        }
+        for inner in &inners {
+            let mut ctxs: Vec<Cmd> = vec![
+                Cmd::If { cond: bx(inner.clone()), then: bx(p()), elifs: vec![], els: Some(bx(p())) },
+                Cmd::If { cond: bx(Cmd::S(1)), then: bx(p()), elifs: vec![(inner.clone(), p())], els: Some(bx(p())) },
+                Cmd::Loop { until: false, id: 0, n: 1, pre: vec![inner.clone()], body: bx(p()) },
+                Cmd::Loop { until: true, id: 0, n: 1, pre: vec![inner.clone()], body: bx(p()) },
+                Cmd::AndOr(bx(inner.clone()), vec![(true, p())]),
+                Cmd::AndOr(bx(inner.clone()), vec![(false, p())]),
+                Cmd::AndOr(bx(Cmd::S(0)), vec![(true, inner.clone()), (false, p())]),
+                Cmd::Not(bx(inner.clone())),
+                Cmd::Seq(vec![Cmd::FuncDef { name: 0, body: bx(Cmd::Group(bx(inner.clone()))) }, Cmd::If { cond: bx(Cmd::Call(0)), then: bx(p()), elifs: vec![], els: Some(bx(p())) }]),
+                Cmd::Seq(vec![Cmd::FuncDef { name: 0, body: bx(Cmd::Group(bx(inner.clone()))) }, Cmd::Not(bx(Cmd::Call(0)))]),
+            ];
+            // the same environments outside any exempt context (errexit applies inside them)
+            ctxs.push(inner.clone());
+            for c in ctxs {
+                for errexit in [true, false] {
+                    out.push(Case { prog: wrap(Cmd::Seq(vec![c.clone(), p()]), errexit, false, false, false), planted: None });
+                }
+            }
+        }
+    }
     // errexit toggled mid-script
     let small = progs::programs(2);
     for a in &small {
@@ -410,7 +451,7 @@ pub fn run(tier: Tier) -> i32 {
     let cov = json!({
         "evaluations": evals.load(Relaxed) + d_runs.load(Relaxed),
         "distinct_nontrivial": nontrivial.load(Relaxed) + d_entered.load(Relaxed),
-        "rule": format!("every C02 program of at most {} nodes, (a) as is with errexit off/on (+ job control on when it contains a pipeline, + a syntax error on a later line for small ones), (b) with each of 13 failure categories (not found; redirection error on regular built-in / function / compound / special built-in / command-wrapped special; read-only assignment prefixed to special / regular / nothing; ${{u?}}; unset under nounset; special built-in usage error, plain and via `command`) planted at every probe position, errexit off/on, (c) errexit toggled mid-script; every script has an EXIT trap and a final probe. Oracle: refsh + the documented consequences of shell errors; statuses the manual only calls non-zero are compared as non-zero. Non-trivial = a failure is planted or the reference run aborts before the final probe; distinct by script.", tier.pick(3, 4)),
+        "rule": format!("every C02 program of at most {} nodes, (a) as is with errexit off/on (+ job control on when it contains a pipeline, + a syntax error on a later line for small ones), (b) with each of 13 failure categories (not found; redirection error on regular built-in / function / compound / special built-in / command-wrapped special; read-only assignment prefixed to special / regular / nothing; ${{u?}}; unset under nounset; special built-in usage error, plain and via `command`) planted at every probe position, errexit off/on, (c) errexit toggled mid-script; (c2) 16 environments (subshell, substitution, pipeline element, nested subshell, group in subshell, async list, group) containing a failing non-final command x 10 exempt contexts (if/elif/while/until conditions, and-or operands, negation, functions called from them) and outside any, errexit on/off; every script has an EXIT trap and a final probe. Oracle: refsh + the documented consequences of shell errors; statuses the manual only calls non-zero are compared as non-zero. Non-trivial = a failure is planted or the reference run aborts before the final probe; distinct by script.", tier.pick(3, 4)),
         "samples": samples.take(),
         "cases": cs.len(),
         "part_d_trap_vs_abort_scripts": dscripts.len(),
